@@ -52,12 +52,12 @@ ExpCase(n, ut, lk) ==
   [kind |-> "hier",
    inp |-> [src |-> "expmat", dk |-> MatOf(n, ut), qd |-> 4, pts |-> <<>>, pd |-> 1,
             meth |-> [name |-> "none", en |-> 1, ed |-> 1, c |-> 0, d |-> 0],
-            link |-> lk, f32 |-> ((HashSeq(ut) \div 7) % 3 = 0),
+            link |-> lk, f32 |-> ((HashSeq(ut) \div 7) % 6 = 0),
             crits |-> Crits(n, [h \in 1..4 |-> Dist(h - 1, 4)], 4)]]
 \* small matrices: every linkage; n >= 4: the four replayable linkages (one in Stride), the others sampled
 KeepExp(n, ut, lk) ==
   LET h == HashSeq(ut) IN
-  IF lk \in ExactLinks THEN (n <= 3 \/ (h + LinkNo(lk)) % Stride = 0)
+  IF lk \in ExactLinks THEN (n <= 3 \/ (h + LinkNo(lk)) % (IF n >= 5 THEN 3 * Stride ELSE Stride) = 0)
   ELSE lk = OtherLinks[((h \div 16) % 3) + 1] /\ (n <= 2 \/ h % (5 * Stride) = 0)
 
 Grid == Tuples({0, 1, 2}, 2)
@@ -67,9 +67,9 @@ PtsKey(s) == HashSeq([i \in 1..Len(s) |-> PKey(s[i])])
 PtsCase(s, m, lk) ==
   [kind |-> "hier",
    inp |-> [src |-> "pts", dk |-> <<>>, qd |-> 1, pts |-> s, pd |-> 1, meth |-> m,
-            link |-> lk, f32 |-> ((PtsKey(s) \div 7) % 4 = 0),
+            link |-> lk, f32 |-> ((PtsKey(s) \div 7) % 6 = 0),
             crits |-> Crits(Len(s), [h \in 1..5 |-> Dist(<<0, 1, 2, 4, 9>>[h], m.en)], m.en)]]
-KeepPts(s, m, lk) == (PtsKey(s) + m.en + LinkNo(lk)) % (2 * Stride) = 0
+KeepPts(s, m, lk) == (PtsKey(s) + m.en + LinkNo(lk)) % (4 * Stride) = 0
 
 \* linear / polynomial kernels of (half-)integer points with negative coordinates: similarities a/q, some <= 0
 \* (floored), some > 1 (negative dissimilarity).  Thresholds -ln((2h+1)/(2q)) lie strictly between the levels.
@@ -87,13 +87,13 @@ SimCase(s, pd, m, lk) ==
   LET q == SimQ(m, pd) IN
   [kind |-> "hier",
    inp |-> [src |-> "pts", dk |-> <<>>, qd |-> 1, pts |-> s, pd |-> pd, meth |-> m,
-            link |-> lk, f32 |-> ((PtsKey(s) \div 7) % 4 = 0),
+            link |-> lk, f32 |-> ((PtsKey(s) \div 7) % 6 = 0),
             crits |-> Crits(Len(s), <<LnRat(0, q), LnRat(q \div 4, q), LnRat(q \div 2, q), LnRat(q - 1, q)>>, 1)]]
 
 Init ==
   \/ \E n \in 1..MaxN : \E ut \in UTs(n) : \E lk \in ExactLinks \cup {OtherLinks[q] : q \in 1..3} :
         KeepExp(n, ut, lk) /\ case = ExpCase(n, ut, lk)
-  \/ \E n \in 3..(IF MaxN > 4 THEN 5 ELSE 4) : \E s \in SortedSeqs(Grid, n) : \E m \in Eps : \E lk \in ExactLinks :
+  \/ \E n \in 3..4 : \E s \in SortedSeqs(Grid, n) : \E m \in Eps : \E lk \in ExactLinks :
         KeepPts(s, m, lk) /\ case = PtsCase(s, m, lk)
   \/ \E n \in 2..4 : \E s \in SortedSeqs(SGrid, n) : \E pd \in {1, 2} : \E mi \in 1..Len(SimMeths) :
         LET h == PtsKey(s) + 3 * pd + 5 * mi IN
